@@ -193,10 +193,13 @@ pub fn apply(t: &Tables, live: &mut Live, op: &Value) -> Result<bool, String> {
                 Obj::Solo(pp) => clone_handle(pp),
                 Obj::Doc(_) => live.handle(p - 1).ok_or_else(|| format!("no paragraph {}", p))?,
             };
+            // set / remove also exist on the paragraph TRAIT the derived conversions use (src/convert.rs): every other
+            // history goes through it
+            let via_trait = !live.use_early;
             guarded(api_name, move || match name.as_str() {
-                "set" => { h.set(&k, &v); false }
+                "set" => { if via_trait { <Paragraph as deb822_lossless::convert::Deb822LikeParagraph>::set(&mut h, &k, &v) } else { h.set(&k, &v) }; false }
                 "insert" => { h.insert(&k, &v); false }
-                "remove" => { h.remove(&k); false }
+                "remove" => { if via_trait { <Paragraph as deb822_lossless::convert::Deb822LikeParagraph>::remove(&mut h, &k) } else { h.remove(&k) }; false }
                 _ => h.rename(&k, &k2),
             })
         }
